@@ -46,8 +46,15 @@ func genC20(r *simrt.RNG, tier string, variant int) Plan {
 		if pat == 1 && sz > 5000 {
 			pat = 2 // byte-at-a-time over megabytes is only slow
 		}
-		p.Ops = append(p.Ops, Op{Kind: "reader", Client: 0, Tok: i + 1, Size: sz, N: pat, Hold: r.Bool(0.3)})
+		op := Op{Kind: "reader", Client: 0, Tok: i + 1, Size: sz, N: pat, Hold: r.Bool(0.3)}
+		if r.Bool(0.2) {
+			op.SleepNs = Pick(r, []int64{int64(2e9), int64(15e9)}) // a slow consumer
+		}
+		p.Ops = append(p.Ops, op)
 	}
+	// TCP flow control on the upload connection: bodies beyond the window are
+	// only partly in flight until the handler reads
+	p.Params["window"] = Pick(r, []int64{0, 16384, 262144})
 	return p
 }
 
@@ -67,12 +74,13 @@ func (s *statusWriter) WriteHeader(c int) { s.code = c; s.ResponseWriter.WriteHe
 
 func runC20(e *Env, p *Plan) {
 	rec := &uploadRec{}
+	e.N.Cfg.HTTPWindow = int(p.Param("window", 0))
 	rh, dec := httpio.ReaderParamDecoder()
 	oldDT := http.DefaultTransport
 	dt := &http.Transport{DialContext: e.N.Dialer(false), DisableKeepAlives: true}
 	http.DefaultTransport = dt
 	defer func() { http.DefaultTransport = oldDT }()
-	srv := e.NewServer(p.Servers[0].Addr, ServerOpts{PingInterval: -1, Extra: []jsonrpc.ServerOption{dec}, Mux: func(mux *http.ServeMux) {
+	srv := e.NewServer(p.Servers[0].Addr, ServerOpts{PingInterval: 0, Extra: []jsonrpc.ServerOption{dec}, Mux: func(mux *http.ServeMux) {
 		mux.HandleFunc("/rd/", func(w http.ResponseWriter, r *http.Request) {
 			rec.mu.Lock()
 			rec.started++
@@ -85,7 +93,7 @@ func runC20(e *Env, p *Plan) {
 			rec.mu.Unlock()
 		})
 	}})
-	c, err := e.NewClient("A", srv, ClientOpts{Kind: p.Clients[0].Kind, Ping: -1,
+	c, err := e.NewClient("A", srv, ClientOpts{Kind: p.Clients[0].Kind, Ping: 0,
 		Extra: []jsonrpc.Option{httpio.ReaderParamEncoder("http://" + srv.Addr + "/rd")}})
 	if err != nil {
 		e.Violate("setup", "client: %v", err)
@@ -95,7 +103,7 @@ func runC20(e *Env, p *Plan) {
 	for _, op := range p.Ops {
 		w.Start(op, nil)
 	}
-	if !e.S.Settle(10 * time.Second) {
+	if !e.S.Settle(40 * time.Second) {
 		return
 	}
 	w.CheckAllReturned("C20.call-returns")
